@@ -807,6 +807,7 @@ analyze_function(CallGraphNode cg_node,
   }
 
   /// -- 3. Run the analyzer
+  CRAB_VERIF_TICK();
   analyzer->run_forward(entry);
 
   // ### Recursive function ###
